@@ -98,12 +98,428 @@ theorem pushE_rel (id : Nat) {a₁ a₂ : M MVal} {i₁ i₂ : M (List Nat)} (ha
   refine RTriple.bindV (promoteIf_rel hv) (fun p₁ p₂ hp => ?_)
   refine RTriple.bindU (pushT_rel hp) (fun _ _ => ?_)
   refine RTriple.bindE hi (fun path => ?_)
-  refine RTriple.bind ?_ (fun q₁ q₂ => RTriple.assume (fun hq => ?_))
-  · exact popClean_rel
-  · refine RTriple.bindV (modifyVar_rel id path ?_) (fun _ _ _ => scalar_rel)
+  refine RTriple.bindV popClean_rel (fun q₁ q₂ hq => ?_)
+  refine RTriple.bindV (modifyVar_rel id path ?_) (fun _ _ _ => scalar_rel)
+  intro x₁ x₂ hx
+  cases x₁ <;> cases x₂ <;> simp only [VRel] at hx <;> simp only
+  exact ⟨by simp only [VRel]; exact ⟨hx.1, VRelL.append hx.2 (by simp only [VRelL]; exact ⟨hq, trivial⟩)⟩,
+    by simp [VRel]⟩
+
+theorem popRevE_rel (isPop : Bool) (id : Nat) {i₁ i₂ : M (List Nat)} (hi : RStep i₁ i₂) :
+    REval (popRevE isPop id i₁) (popRevE isPop id i₂) := by
+  unfold popRevE
+  refine RTriple.bindE hi (fun path => ?_)
+  cases isPop with
+  | true =>
+    simp only [if_true]
+    refine modifyVar_rel id path ?_
     intro x₁ x₂ hx
     cases x₁ <;> cases x₂ <;> simp only [VRel] at hx <;> simp only
-    exact ⟨by simp only [VRel]; exact ⟨hx.1, VRelL.append hx.2 (by simp only [VRelL]; exact ⟨hq, trivial⟩)⟩,
-      by simp [VRel]⟩
+    exact ⟨by simp only [VRel]; exact ⟨hx.1, hx.2.dropLast⟩, hx.2.getLast⟩
+  | false =>
+    simp only [Bool.false_eq_true, if_false]
+    refine modifyVar_rel id path ?_
+    intro x₁ x₂ hx
+    cases x₁ <;> cases x₂ <;> simp only [VRel] at hx <;> simp only
+    exact ⟨by simp only [VRel]; exact ⟨hx.1, hx.2.reverse⟩, by simp [VRel]⟩
+
+theorem cmdMutE_rel (id : Nat) {a₁ a₂ : M Unit} {i₁ i₂ : M (List Nat)} (ha : RStep a₁ a₂)
+    (hi : RStep i₁ i₂) : REval (cmdMutE id a₁ i₁) (cmdMutE id a₂ i₂) := by
+  unfold cmdMutE
+  refine RTriple.bindE ha (fun _ => ?_)
+  refine RTriple.bindE hi (fun path => ?_)
+  refine RTriple.bindV (modifyVar_rel id path ?_) (fun _ _ _ => scalar_rel)
+  intro x₁ x₂ hx
+  cases x₁ <;> cases x₂ <;> simp only [VRel] at hx <;> simp only
+  rename_i h₁ h₂
+  rw [hx.2]
+  cases h₂.isStr with
+  | true => simp
+  | false => simp only [Bool.false_eq_true, if_false]; exact ⟨by simp only [VRel]; exact hx, by simp [VRel]⟩
+
+theorem methodKind_rel {v₁ v₂ : MVal} (h : VRel v₁ v₂) (field : Bytes) :
+    methodKind v₁ field = methodKind v₂ field := by
+  cases v₁ <;> cases v₂ <;> simp only [VRel] at h <;> simp only [methodKind]
+  rw [h.2]
+
+theorem methodE_rel (field : Bytes) (sp : Span) {r₁ r₂ : M MVal} {a₁ a₂ : M Nat} (hr : REval r₁ r₂)
+    (ha : RStep a₁ a₂) : REval (methodE field sp r₁ a₁) (methodE field sp r₂ a₂) := by
+  unfold methodE
+  refine RTriple.bindV hr (fun rv₁ rv₂ hrv => ?_)
+  rw [methodKind_rel hrv field]
+  cases hk : methodKind rv₂ field with
+  | bad => exact shapeError_rel
+  | num =>
+    simp only
+    refine RTriple.bindU (pushT_rel hrv) (fun _ _ => ?_)
+    refine RTriple.bindE ha (fun n => ?_)
+    refine RTriple.bind (popN_rel n (by simp [VRelL])) (fun as₁ as₂ => RTriple.assume (fun has => ?_))
+    refine RTriple.bindV popT_rel (fun q₁ q₂ hq => ?_)
+    refine RTriple.bindU (readV_rel 55 hq) (fun _ _ => ?_)
+    refine RTriple.bindU (readHs_rel 56 has.cts) (fun _ _ => ?_)
+    exact RTriple.bindE (errAt_rel 5 sp) (fun _ => scalar_rel)
+  | str =>
+    simp only
+    refine RTriple.bindU (pushT_rel hrv) (fun _ _ => ?_)
+    refine RTriple.bindE ha (fun n => ?_)
+    refine RTriple.bind (popN_rel n (by simp [VRelL])) (fun as₁ as₂ => RTriple.assume (fun has => ?_))
+    refine RTriple.bindV popT_rel (fun q₁ q₂ hq => ?_)
+    refine RTriple.bindU (readV_rel 55 hq) (fun _ _ => ?_)
+    refine RTriple.bindU (readHs_rel 56 has.cts) (fun _ _ => ?_)
+    exact newStr_rel
+  | split =>
+    simp only
+    refine RTriple.bindU (pushT_rel hrv) (fun _ _ => ?_)
+    refine RTriple.bindE ha (fun n => ?_)
+    refine RTriple.bind (popN_rel n (by simp [VRelL])) (fun as₁ as₂ => RTriple.assume (fun has => ?_))
+    refine RTriple.bindV popT_rel (fun q₁ q₂ hq => ?_)
+    refine RTriple.bindU (readV_rel 55 hq) (fun _ _ => ?_)
+    refine RTriple.bindU (readHs_rel 56 has.cts) (fun _ _ => ?_)
+    refine RTriple.bindE tokSplit_rel (fun m => ?_)
+    refine RTriple.bind (allocFrame_rel false 0) (fun b₁ b₂ => RTriple.assume (fun hb => ?_))
+    refine RTriple.bind (allocStrs_rel m) (fun xs₁ xs₂ => ?_)
+    exact RTriple.pure _ _ (fun _ _ h => ⟨h.1, by simp only [VRel]; exact ⟨hb.1, h.2⟩⟩)
+  | run =>
+    simp only
+    refine RTriple.bindU (pushT_rel hrv) (fun _ _ => ?_)
+    refine RTriple.bindE ha (fun n => ?_)
+    refine RTriple.bind (popN_rel n (by simp [VRelL])) (fun as₁ as₂ => RTriple.assume (fun has => ?_))
+    refine RTriple.bindV popT_rel (fun q₁ q₂ hq => ?_)
+    refine RTriple.bindU (readV_rel 55 hq) (fun _ _ => ?_)
+    refine RTriple.bindU (readHs_rel 56 has.cts) (fun _ _ => ?_)
+    refine RTriple.bindE (errAt_rel 7 sp) (fun _ => ?_)
+    refine RTriple.bindE freshCt_rel (fun ct => ?_)
+    refine RTriple.bind (allocPersist_rel false ct) (fun h₁ h₂ => ?_)
+    exact RTriple.pure _ _ (fun _ _ h => ⟨h.1, by simp only [VRel]; exact h.2⟩)
+
+theorem ioCheck_rel (name : Bytes) (sp : Span) :
+    RTriple R (ioCheck name sp) (ioCheck name sp) (fun _ _ => R) := by
+  unfold ioCheck
+  split
+  · exact (errAt_rel 1 sp).post (fun _ _ _ _ h => h.1)
+  · exact RTriple.pure _ _ (fun _ _ h => h)
+
+theorem builtinE_rel (name : Bytes) (sp : Span) {a₁ a₂ : M MVal} (ha : REval a₁ a₂) :
+    REval (builtinE Cfg.fixed name sp a₁) (builtinE Cfg.noReclaim name sp a₂) := by
+  unfold builtinE
+  refine RTriple.bindV ha (fun v₁ v₂ hv => ?_)
+  split
+  · refine RTriple.bindU (readV_rel 57 hv) (fun _ _ => ?_)
+    refine RTriple.bindU ((RTriple.both (emit_heapOnly _) (emit_heapOnly _)).post
+      (fun _ _ _ _ h => h.1)) (fun _ _ => ?_)
+    refine RTriple.bindV (promoteIf_rel hv) (fun p₁ p₂ hp => ?_)
+    exact RTriple.bindU (storeOut_rel hp) (fun _ _ => scalar_rel)
+  · split
+    · exact static_rel
+    · split
+      · refine RTriple.bindU (readV_rel 58 hv) (fun _ _ => ?_)
+        refine RTriple.bindE freshCt_rel (fun ct => ?_)
+        refine RTriple.bind (allocFrame_rel false ct) (fun h₁ h₂ => ?_)
+        exact RTriple.pure _ _ (fun _ _ h => ⟨h.1, by simp only [VRel]; exact h.2⟩)
+      · refine RTriple.bindU (readV_rel 59 hv) (fun _ _ => ?_)
+        exact RTriple.bindU (ioCheck_rel name sp) (fun _ _ => newStr_rel)
+
+theorem callE_rel (nargs : Nat) (params : List (Option Nat)) {a₁ a₂ : M Nat} {b₁ b₂ : M Flow}
+    (ha : RStep a₁ a₂) (hb : RStep b₁ b₂) :
+    REval (callE Cfg.fixed nargs params a₁ b₁) (callE Cfg.noReclaim nargs params a₂ b₂) := by
+  unfold callE
+  refine RTriple.bindE (tokCall_rel nargs) (fun _ => ?_)
+  refine RTriple.bindU (pushMark_rel 1) (fun _ _ => ?_)
+  refine RTriple.bindE ha (fun n => ?_)
+  refine RTriple.bindU ((RTriple.both (emit_heapOnly _) (emit_heapOnly _)).post
+    (fun _ _ _ _ h => h.1)) (fun _ _ => ?_)
+  refine RTriple.bind (popN_rel n (by simp [VRelL])) (fun vs₁ vs₂ => RTriple.assume (fun hvs => ?_))
+  refine RTriple.bindU pushScope_rel (fun _ _ => ?_)
+  refine RTriple.bindU (bindParams_rel params hvs) (fun _ _ => ?_)
+  refine RTriple.bindE hb (fun fl => ?_)
+  refine RTriple.bindU popScope_rel (fun _ _ => ?_)
+  refine RTriple.bindU ((RTriple.both (emit_heapOnly _) (emit_heapOnly _)).post
+    (fun _ _ _ _ h => h.1)) (fun _ _ => ?_)
+  refine RTriple.bindV (m₁ := match fl with
+      | .ret => popT
+      | .normal => pure .scalar
+      | _ => halt (.stuck 24)) (m₂ := match fl with
+      | .ret => popT
+      | .normal => pure .scalar
+      | _ => halt (.stuck 24)) ?_ (fun rv₁ rv₂ hrv => ?_)
+  · cases fl
+    · exact scalar_rel
+    · exact popT_rel
+    · exact RTriple.halt _ _
+    · exact RTriple.halt _ _
+  · simp only [Cfg.fixed, Cfg.noReclaim, if_true, Bool.false_eq_true, if_false]
+    exact relocate_rel hrv
+
+/-! ### Statement combinators -/
+
+theorem defineE_rel (id : Nat) {e₁ e₂ : M MVal} (he : REval e₁ e₂) :
+    RStep (defineE Cfg.fixed id e₁) (defineE Cfg.noReclaim id e₂) := by
+  unfold defineE
+  refine RTriple.bindV he (fun v₁ v₂ hv => ?_)
+  exact RTriple.bindU (define_rel id hv) (fun _ _ => RTriple.pure _ _ (fun _ _ h => ⟨h, rfl⟩))
+
+theorem assignE_rel (id : Nat) {e₁ e₂ : M MVal} (he : REval e₁ e₂) :
+    RStep (assignE Cfg.fixed id e₁) (assignE Cfg.noReclaim id e₂) := by
+  unfold assignE assign
+  refine RTriple.bindV he (fun v₁ v₂ hv => ?_)
+  exact RTriple.bindU (overwrite_rel id hv) (fun _ _ => RTriple.pure _ _ (fun _ _ h => ⟨h, rfl⟩))
+
+theorem assignIndexE_rel (id : Nat) {e₁ e₂ : M MVal} {i₁ i₂ : M (List Nat)} (he : REval e₁ e₂)
+    (hi : RStep i₁ i₂) :
+    RStep (assignIndexE Cfg.fixed id e₁ i₁) (assignIndexE Cfg.noReclaim id e₂ i₂) := by
+  unfold assignIndexE
+  refine RTriple.bindV he (fun v₁ v₂ hv => ?_)
+  refine RTriple.bindU (pushT_rel hv) (fun _ _ => ?_)
+  refine RTriple.bindE hi (fun path => ?_)
+  refine RTriple.bindV popT_rel (fun q₁ q₂ hq => ?_)
+  refine RTriple.bindV (promoteIf_rel hq) (fun p₁ p₂ hp => ?_)
+  refine RTriple.bindV (modifyVar_rel id path (g₁ := fun o => some (p₁, o)) (g₂ := fun o => some (p₂, o))
+    (fun x₁ x₂ hx => ⟨hp, hx⟩)) (fun old₁ old₂ _ => ?_)
+  refine RTriple.bindU (m₁ := freeIf Cfg.fixed old₁) (m₂ := freeIf Cfg.noReclaim old₂) ?_
+    (fun _ _ => RTriple.pure _ _ (fun _ _ h => ⟨h, rfl⟩))
+  simp only [freeIf, Cfg.fixed, Cfg.noReclaim, if_true, Bool.false_eq_true, if_false]
+  exact (RTriple.leftPure (freeTop_heapOnly old₁) ()).post (fun _ _ _ _ h => h.1)
+
+theorem ifE_rel {c₁ c₂ : M MVal} {t₁ t₂ e₁ e₂ : M Flow} (hc : REval c₁ c₂) (ht : RStep t₁ t₂)
+    (he : RStep e₁ e₂) : RStep (ifE c₁ t₁ e₁) (ifE c₂ t₂ e₂) := by
+  unfold ifE
+  refine RTriple.bindV hc (fun _ _ _ => ?_)
+  refine RTriple.bindE tokBr_rel (fun b => ?_)
+  cases b with
+  | true => simp only [if_true]; exact ht
+  | false => simp only [Bool.false_eq_true, if_false]; exact he
+
+theorem loopE_rel {c₁ c₂ : M MVal} {b₁ b₂ a₁ a₂ : M Flow} (hc : REval c₁ c₂) (hb : RStep b₁ b₂)
+    (ha : RStep a₁ a₂) : RStep (loopE Cfg.fixed c₁ b₁ a₁) (loopE Cfg.noReclaim c₂ b₂ a₂) := by
+  unfold loopE
+  refine RTriple.bindV hc (fun _ _ _ => ?_)
+  refine RTriple.bindE tokLp_rel (fun go => ?_)
+  cases go with
+  | false => simp only [Bool.false_eq_true, if_false]; exact RTriple.pure _ _ (fun _ _ h => ⟨h, rfl⟩)
+  | true =>
+    simp only [if_true]
+    refine RTriple.bindU (pushMark_rel 0) (fun _ _ => ?_)
+    refine RTriple.bindE hb (fun fl => ?_)
+    cases fl with
+    | brk => exact RTriple.bindU dropMark_rel (fun _ _ => RTriple.pure _ _ (fun _ _ h => ⟨h, rfl⟩))
+    | ret =>
+      exact RTriple.bindU dropMarkUnderTop_rel (fun _ _ => RTriple.pure _ _ (fun _ _ h => ⟨h, rfl⟩))
+    | normal => exact RTriple.bindU (resetToMark_rel 0) (fun _ _ => ha)
+    | cont => exact RTriple.bindU (resetToMark_rel 0) (fun _ _ => ha)
+
+theorem blockE_rel (stmts : List Stmt) {b₁ b₂ : M Flow} (hb : RStep b₁ b₂) :
+    RStep (blockE stmts b₁) (blockE stmts b₂) := by
+  unfold blockE
+  refine RTriple.bindU pushScope_rel (fun _ _ => ?_)
+  refine RTriple.bindU (addFns_rel _) (fun _ _ => ?_)
+  refine RTriple.bindE hb (fun fl => ?_)
+  exact RTriple.bindU popScope_rel (fun _ _ => RTriple.pure _ _ (fun _ _ h => ⟨h, rfl⟩))
+
+theorem seqE_rel {s₁ s₂ r₁ r₂ : M Flow} (hs : RStep s₁ s₂) (hr : RStep r₁ r₂) :
+    RStep (seqE s₁ r₁) (seqE s₂ r₂) := by
+  unfold seqE
+  refine RTriple.bindE hs (fun fl => ?_)
+  cases fl with
+  | normal => exact hr
+  | ret => exact RTriple.pure _ _ (fun _ _ h => ⟨h, rfl⟩)
+  | brk => exact RTriple.pure _ _ (fun _ _ h => ⟨h, rfl⟩)
+  | cont => exact RTriple.pure _ _ (fun _ _ h => ⟨h, rfl⟩)
+
+theorem retE_rel {e₁ e₂ : M MVal} (he : REval e₁ e₂) : RStep (retE e₁) (retE e₂) := by
+  unfold retE
+  refine RTriple.bindV he (fun v₁ v₂ hv => ?_)
+  exact RTriple.bindU (pushT_rel hv) (fun _ _ => RTriple.pure _ _ (fun _ _ h => ⟨h, rfl⟩))
+
+theorem exprStmtE_rel {e₁ e₂ : M MVal} (he : REval e₁ e₂) : RStep (exprStmtE e₁) (exprStmtE e₂) := by
+  unfold exprStmtE
+  exact RTriple.bindV he (fun _ _ _ => RTriple.pure _ _ (fun _ _ h => ⟨h, rfl⟩))
+
+theorem idxE_rel (isp : Span) {e₁ e₂ : M MVal} {r₁ r₂ : M (List Nat)} (he : REval e₁ e₂)
+    (hr : RStep r₁ r₂) : RStep (idxE isp e₁ r₁) (idxE isp e₂ r₂) := by
+  unfold idxE
+  refine RTriple.bindV he (fun v₁ v₂ hv => ?_)
+  cases v₁ <;> cases v₂ <;> simp only [VRel] at hv
+  · refine RTriple.bindE (errAt_rel 6 isp) (fun _ => ?_)
+    refine RTriple.bindE (errAt_rel 4 isp) (fun _ => ?_)
+    refine RTriple.bindE tokIx_rel (fun k => ?_)
+    refine RTriple.bindE hr (fun ks => ?_)
+    exact RTriple.pure _ _ (fun _ _ h => ⟨h, rfl⟩)
+  · exact shapeError_rel
+  · exact shapeError_rel
+
+theorem pushArgE_rel {e₁ e₂ : M MVal} {r₁ r₂ : M Nat} (he : REval e₁ e₂) (hr : RStep r₁ r₂) :
+    RStep (pushArgE e₁ r₁) (pushArgE e₂ r₂) := by
+  unfold pushArgE
+  refine RTriple.bindV he (fun v₁ v₂ hv => ?_)
+  refine RTriple.bindU (pushT_rel hv) (fun _ _ => ?_)
+  exact RTriple.bindE hr (fun n => RTriple.pure _ _ (fun _ _ h => ⟨h, rfl⟩))
+
+theorem dropArgE_rel (sp : Span) {e₁ e₂ : M MVal} {r₁ r₂ : M Unit} (he : REval e₁ e₂)
+    (hr : RStep r₁ r₂) : RStep (dropArgE sp e₁ r₁) (dropArgE sp e₂ r₂) := by
+  unfold dropArgE
+  refine RTriple.bindV he (fun v₁ v₂ hv => ?_)
+  refine RTriple.bindE (errAt_rel 5 sp) (fun _ => ?_)
+  refine RTriple.bindE (errAt_rel 7 sp) (fun _ => ?_)
+  exact RTriple.bindU (readV_rel 61 hv) (fun _ _ => hr)
+
+/-! ### The evaluator in lock step -/
+
+structure AllRel (f : Nat) : Prop where
+  eval : ∀ e, REval (eval Cfg.fixed f e) (eval Cfg.noReclaim f e)
+  evalPush : ∀ es, RStep (evalPush Cfg.fixed f es) (evalPush Cfg.noReclaim f es)
+  evalDrop : ∀ sp es, RStep (evalDrop Cfg.fixed f sp es) (evalDrop Cfg.noReclaim f sp es)
+  evalIdxs : ∀ es, RStep (evalIdxs Cfg.fixed f es) (evalIdxs Cfg.noReclaim f es)
+  exec : ∀ st, RStep (exec Cfg.fixed f st) (exec Cfg.noReclaim f st)
+  loopGo : ∀ c b, RStep (loopGo Cfg.fixed f c b) (loopGo Cfg.noReclaim f c b)
+  execBlock : ∀ b, RStep (execBlock Cfg.fixed f b) (execBlock Cfg.noReclaim f b)
+  execStmts : ∀ ss, RStep (execStmts Cfg.fixed f ss) (execStmts Cfg.noReclaim f ss)
+
+theorem allRel_zero : AllRel 0 where
+  eval := fun e => by unfold Mem.eval; exact RTriple.halt _ _
+  evalPush := fun es => by unfold Mem.evalPush; exact RTriple.halt _ _
+  evalDrop := fun sp es => by unfold Mem.evalDrop; exact RTriple.halt _ _
+  evalIdxs := fun es => by unfold Mem.evalIdxs; exact RTriple.halt _ _
+  exec := fun st => by unfold Mem.exec; exact RTriple.halt _ _
+  loopGo := fun c b => by unfold Mem.loopGo; exact RTriple.halt _ _
+  execBlock := fun b => by unfold Mem.execBlock; exact RTriple.halt _ _
+  execStmts := fun ss => by unfold Mem.execStmts; exact RTriple.halt _ _
+
+theorem eval_succ_rel {f : Nat} (ih : AllRel f) (e : Expr) :
+    REval (Mem.eval Cfg.fixed (f + 1) e) (Mem.eval Cfg.noReclaim (f + 1) e) := by
+  unfold Mem.eval
+  refine RTriple.bindE (errAt_rel 3 e.span) (fun _ => ?_)
+  cases e with
+  | num _ _ => exact scalar_rel
+  | bool _ _ => exact scalar_rel
+  | null _ => exact scalar_rel
+  | str parts _ =>
+    cases parts with
+    | static _ => exact static_rel
+    | interp segs => exact interpE_rel segs
+  | var _ bind _ =>
+    cases bind with
+    | none => exact RTriple.halt _ _
+    | some id => exact varE_rel id
+  | binary op l r sp =>
+    cases op <;> first
+      | exact andOrE_rel (ih.eval l) (ih.eval r)
+      | exact binE_rel _ sp (ih.eval l) (ih.eval r)
+  | unary _ e _ => exact discardE_rel (ih.eval e)
+  | array es _ => exact arrayE_rel (ih.evalPush es)
+  | index a i isp _ => exact indexE_rel isp (ih.eval a) (ih.eval i)
+  | member _ _ _ _ => exact RTriple.halt _ _
+  | call callee args fn sp =>
+    cases callee with
+    | member obj field _ _ =>
+      simp only
+      split
+      · split
+        · split
+          · split
+            · exact pushFailE_rel (ih.eval _)
+            · exact RTriple.halt _ _
+          · exact shapeError_rel
+        · split
+          · split
+            · exact pushE_rel _ (ih.eval _) (ih.evalIdxs _)
+            · exact RTriple.halt _ _
+          · exact popRevE_rel _ _ (ih.evalIdxs _)
+      · split
+        · split
+          · exact argsFailE_rel (ih.evalDrop _ _)
+          · exact cmdMutE_rel _ (ih.evalDrop _ _) (ih.evalIdxs _)
+        · exact methodE_rel field sp (ih.eval obj) (ih.evalPush args)
+    | var name _ _ =>
+      simp only
+      split
+      · split
+        · exact builtinE_rel name sp (ih.eval _)
+        · exact RTriple.halt _ _
+      · split
+        · exact RTriple.halt _ _
+        · refine RTriple.bindE (getFn_rel _) (fun fd => ?_)
+          exact callE_rel _ _ (ih.evalPush args) (ih.execBlock fd.body)
+    | index _ _ _ _ => exact RTriple.halt _ _
+    | str _ _ => exact RTriple.halt _ _
+    | num _ _ => exact RTriple.halt _ _
+    | binary _ _ _ _ => exact RTriple.halt _ _
+    | call _ _ _ _ => exact RTriple.halt _ _
+    | array _ _ => exact RTriple.halt _ _
+    | unary _ _ _ => exact RTriple.halt _ _
+    | bool _ _ => exact RTriple.halt _ _
+    | null _ => exact RTriple.halt _ _
+
+theorem flowPure_rel (fl : Flow) : RStep (pure fl : M Flow) (pure fl) :=
+  RTriple.pure _ _ (fun _ _ h => ⟨h, rfl⟩)
+
+theorem exec_succ_rel {f : Nat} (ih : AllRel f) (st : Stmt) :
+    RStep (Mem.exec Cfg.fixed (f + 1) st) (Mem.exec Cfg.noReclaim (f + 1) st) := by
+  unfold Mem.exec
+  cases st with
+  | assign _ _ e bind _ _ =>
+    cases bind with
+    | none => exact RTriple.halt _ _
+    | some id => exact defineE_rel id (ih.eval e)
+  | assignExisting _ _ e bind _ _ =>
+    cases bind with
+    | none => exact RTriple.halt _ _
+    | some id => exact assignE_rel id (ih.eval e)
+  | assignIndex target e _ _ =>
+    simp only
+    split
+    · exact RTriple.halt _ _
+    · exact assignIndexE_rel _ (ih.eval e) (ih.evalIdxs _)
+  | ifS c t e _ _ =>
+    refine ifE_rel (ih.eval c) (ih.execBlock t) ?_
+    cases e with
+    | none => exact flowPure_rel _
+    | some eb => exact ih.execBlock eb
+  | loop c b _ _ => exact ih.loopGo c b
+  | block b _ _ => exact ih.execBlock b
+  | fnDef _ _ _ _ _ _ _ => exact flowPure_rel _
+  | ret e _ _ =>
+    cases e with
+    | none => exact retE_rel scalar_rel
+    | some e => exact retE_rel (ih.eval e)
+  | brk _ _ => exact flowPure_rel _
+  | cont _ _ => exact flowPure_rel _
+  | expr e _ _ => exact exprStmtE_rel (ih.eval e)
+
+theorem allRel_succ {f : Nat} (ih : AllRel f) : AllRel (f + 1) where
+  eval := eval_succ_rel ih
+  evalPush := fun es => by
+    unfold Mem.evalPush
+    cases es with
+    | nil => exact RTriple.pure _ _ (fun _ _ h => ⟨h, rfl⟩)
+    | cons e es => exact pushArgE_rel (ih.eval e) (ih.evalPush es)
+  evalDrop := fun sp es => by
+    unfold Mem.evalDrop
+    cases es with
+    | nil => exact RTriple.pure _ _ (fun _ _ h => ⟨h, rfl⟩)
+    | cons e es => exact dropArgE_rel sp (ih.eval e) (ih.evalDrop sp es)
+  evalIdxs := fun es => by
+    unfold Mem.evalIdxs
+    cases es with
+    | nil => exact RTriple.pure _ _ (fun _ _ h => ⟨h, rfl⟩)
+    | cons e es =>
+      obtain ⟨e, isp⟩ := e
+      exact idxE_rel isp (ih.eval e) (ih.evalIdxs es)
+  exec := exec_succ_rel ih
+  loopGo := fun c b => by
+    unfold Mem.loopGo
+    exact loopE_rel (ih.eval c) (ih.execBlock b) (ih.loopGo c b)
+  execBlock := fun b => by
+    unfold Mem.execBlock
+    cases b with
+    | mk stmts _ => exact blockE_rel stmts (ih.execStmts stmts)
+  execStmts := fun ss => by
+    unfold Mem.execStmts
+    cases ss with
+    | nil => exact flowPure_rel _
+    | cons s ss => exact seqE_rel (ih.exec s) (ih.execStmts ss)
+
+theorem allRel : ∀ f, AllRel f
+  | 0 => allRel_zero
+  | f + 1 => allRel_succ (allRel f)
 
 end NaijaVerif.Mem
